@@ -2,6 +2,8 @@ package main
 
 import (
 	"context"
+	"encoding/hex"
+	"strconv"
 	"errors"
 	"fmt"
 	"strings"
@@ -290,6 +292,8 @@ func genC20(e *emitter, tier string, seed uint64) {
 	if !quick {
 		nFlows, nInsc = 4000, 6000
 	}
+	// the validation gates against offers they were not built from, on a generator of their own
+	genValidateC20(e, newRng(seed^0xC20F), nFlows*6)
 	mkU := func(k keyPair, sats uint64, lock []byte) ordUTXO {
 		u := &bt.UTXO{TxID: r.bytes(32), Vout: uint32(r.n(5)), LockingScript: scr(lock), Satoshis: sats}
 		return ordUTXO{u, k.priv.Serialise()}
@@ -618,4 +622,137 @@ func pushBucket(n int) string {
 		return "256-65535"
 	}
 	return ">65535"
+}
+
+// ---- the validation gates on their own (ValidateListingArgs / ValidateBidArgs / ValidateBid2DArgs .Validate) ----
+// The flow ops above always validate an offer against the very UTXO it was built from, so the refusing branches never ran
+// (function-coverage run: 58-65 % of the three Validate methods). Here the offer and the expectation are generated apart.
+
+func parseVUTXOs(s string) []*bt.UTXO {
+	if s == "nil" {
+		return nil
+	}
+	var us []*bt.UTXO
+	for _, p := range strings.Split(s, "|") {
+		f := strings.Split(p, ":")
+		us = append(us, &bt.UTXO{TxID: mustHex(f[0]), Vout: uint32(mustU(f[1], 32)), Satoshis: mustU(f[2], 64)})
+	}
+	return us
+}
+
+func init() {
+	// C20.validate <L|B|D> <pstx> <utxos txid:vout:sats|…, or nil> <bid> <fq>
+	executors["C20.validate"] = func(a []string) string {
+		return safe(func() string {
+			pstx, us, bid, fq := parseDesc(a[1]), parseVUTXOs(a[2]), mustU(a[3], 64), parseFq(a[4])
+			ok := false
+			switch a[0] {
+			case "L":
+				var u *bt.UTXO
+				if len(us) > 0 {
+					u = us[0]
+				}
+				ok = (&ord.ValidateListingArgs{ListedOrdinalUTXO: u}).Validate(pstx)
+			case "B":
+				ok = (&ord.ValidateBidArgs{OrdinalUTXO: us[0], BidAmount: bid, ExpectedFQ: fq}).Validate(pstx)
+			case "D":
+				ok = (&ord.ValidateBid2DArgs{PreviousUTXOs: us, BidAmount: bid, ExpectedFQ: fq}).Validate(pstx)
+			}
+			outs := "-"
+			if ok {
+				var xs []string
+				for _, o := range pstx.Outputs {
+					xs = append(xs, strconv.FormatUint(o.Satoshis, 10))
+				}
+				outs = strings.Join(xs, ",")
+			}
+			return "v=" + b01(ok) + " outs=" + outs
+		})
+	}
+}
+
+func genValidateC20(e *emitter, r *rng, n int) {
+	for i := 0; i < n; i++ {
+		kind := []string{"L", "B", "D"}[i%3]
+		nIn, nOut := r.n(7), r.n(7)
+		if r.chance(60) {
+			nIn, nOut = []int{1, 3 + r.n(2), 4 + r.n(2)}[i%3], []int{1, 3 + r.n(2), 4 + r.n(2)}[i%3]
+		}
+		tx := genFeeTx(r, nIn, nOut, 10, 50)
+		for _, in := range tx.Inputs {
+			in.PreviousTxSatoshis = uint64(1 + r.n(30000))
+		}
+		var us []*bt.UTXO
+		for _, in := range tx.Inputs {
+			us = append(us, &bt.UTXO{TxID: append([]byte{}, in.PreviousTxID()...), Vout: in.PreviousTxOutIndex, Satoshis: in.PreviousTxSatoshis})
+		}
+		if kind == "D" && len(us) >= 2 && len(tx.Outputs) >= 1 && r.chance(75) {
+			tx.Outputs[0].Satoshis = us[0].Satoshis + us[1].Satoshis // the dummies pass through
+		}
+		// the position the gate looks at: input 0 (listing), 1 (bid), every input (bid with two dummies)
+		at := map[string]int{"L": 0, "B": 1, "D": 2}[kind]
+		tamper := "none"
+		if kind != "D" && len(us) > 0 {
+			// the single expected UTXO: the one the protected input spends (or, when there is no such input, another one)
+			if at < len(us) {
+				us = []*bt.UTXO{us[at], us[(at+1)%len(us)]}
+			} else {
+				us = []*bt.UTXO{us[0], us[0]}
+			}
+		}
+		if len(us) > 0 {
+			k := 0
+			if kind == "D" {
+				k = r.n(len(us))
+			}
+			switch r.n(9) {
+			case 0:
+				us[k].TxID[[]int{0, 15, 31}[r.n(3)]] ^= byte(1 << uint(r.n(8)))
+				tamper = "txid-bit"
+			case 1:
+				us[k].Vout += uint32(1 + r.n(2))
+				tamper = "vout"
+			case 2:
+				us[k].Vout ^= 1 << uint(8*(1+r.n(3)))
+				tamper = "vout-high-byte"
+			case 3:
+				us[k].TxID = us[(k+1)%len(us)].TxID
+				tamper = "other-inputs-txid"
+			case 4:
+				if kind == "D" {
+					us = us[:len(us)-1]
+					tamper = "one-utxo-short"
+				}
+			case 5:
+				if kind == "D" {
+					us = append(us, &bt.UTXO{TxID: r.bytes(32), Vout: 0, Satoshis: 5})
+					tamper = "one-utxo-more"
+				}
+			case 6:
+				if kind == "D" && len(us) >= 2 {
+					us[0].Satoshis++
+					tamper = "dummy-sum"
+				}
+			}
+		}
+		bid := uint64(r.n(2000))
+		if r.chance(25) {
+			bid = uint64(20000 + r.n(200000)) // more than the inputs carry: the fee check refuses
+			tamper += "+bid-unaffordable"
+		}
+		arg := "nil"
+		if len(us) > 0 {
+			var xs []string
+			for _, u := range us {
+				xs = append(xs, fmt.Sprintf("%s:%d:%d", hex.EncodeToString(u.TxID), u.Vout, u.Satoshis))
+			}
+			arg = strings.Join(xs, "|")
+		} else if kind != "L" {
+			continue // a nil ordinal UTXO is the caller's error for the bid gates
+		}
+		fqs := []string{"5/100,5/100", "1/2,1/2", "1/1,1/1", "0/1,0/1"}[r.n(4)]
+		res := e.run("C20.validate", kind, descTx(tx), arg, strconv.FormatUint(bid, 10), fqs)
+		e.note("validate." + kind + "." + strings.Fields(res)[0])
+		e.note("validate.tamper." + tamper)
+	}
 }
